@@ -40,6 +40,21 @@ theorem write_nobudget (s : St) (w : Write) (h : s.crashed = false) (hb : s.budg
   | nil => rfl
   | cons w ws ih => simp [St.writes, ih]
 
+theorem write_setMem_comm (s : St) (w : Write) (m : Mem) : (s.write w).setMem m = (s.setMem m).write w := by
+  unfold St.write St.setMem
+  simp only
+  split
+  · rfl
+  · split <;> rfl
+
+theorem writes_setMem_comm (ws : List Write) : ∀ (s : St) (m : Mem), (s.writes ws).setMem m = (s.setMem m).writes ws := by
+  induction ws with
+  | nil => intro s m; rfl
+  | cons w ws ih =>
+    intro s m
+    simp only [St.writes]
+    rw [ih, write_setMem_comm]
+
 /-! ### outcome of a piece of code: alive with `P`, or dead on a disk satisfying `R` -/
 
 def Out (P : Disk → Mem → Prop) (R : Disk → Prop) (s : St) : Prop :=
@@ -80,7 +95,7 @@ theorem Out.writes {P : Disk → Mem → Prop} {R : Disk → Prop} (ws : List Wr
 
 /-- deleting the executed records of a list of transactions -/
 theorem Out.delExecs {R : Disk → Prop} (txs : List Nat) :
-    ∀ {P : Disk → Mem → Prop} {s : St}, Out P R s → (∀ t d m, P d m → P (d.apply (.delExecuted t)) m) →
+    ∀ {P : Disk → Mem → Prop} {s : St}, Out P R s → (∀ t ∈ txs, ∀ d m, P d m → P (d.apply (.delExecuted t)) m) →
     (∀ d m, P d m → R d) →
     Out (fun d m => P d m ∧ ∀ t ∈ txs, d.executed t = none) R (s.writes (txs.map .delExecuted)) := by
   induction txs with
@@ -88,9 +103,9 @@ theorem Out.delExecs {R : Disk → Prop} (txs : List Nat) :
   | cons t ts ih =>
     intro P s h hs hr
     have h1 : Out (fun d m => P d m ∧ d.executed t = none) R (s.write (.delExecuted t)) :=
-      h.write _ (fun d m p => ⟨hs t d m p, by simp [Disk.apply]⟩) hr
+      h.write _ (fun d m p => ⟨hs t (List.mem_cons_self ..) d m p, by simp [Disk.apply]⟩) hr
     have h2 := ih (P := fun d m => P d m ∧ d.executed t = none) h1
-      (fun t' d m p => ⟨hs t' d m p.1, by
+      (fun t' ht' d m p => ⟨hs t' (List.mem_cons_of_mem _ ht') d m p.1, by
         show upd d.executed t' none t = none
         by_cases e : t = t'
         · subst e; simp
@@ -221,7 +236,9 @@ theorem frozen_insertBlock (cont : St → Block → St) (hc : ∀ f, Frozen (fun
   simp only
   split
   · exact a
-  · have b1 := frozen_insertB b _ a.1
+  · rename_i v _
+    have a' : ((insertA s b).setMem { (insertA s b).mem with verified := v }).crashed = true := a.1
+    have b1 := frozen_insertB b _ a'
     split
     · rename_i f _
       have c1 := hc f _ b1.1
@@ -269,9 +286,46 @@ theorem frozen_addCore : ∀ fuel b, Frozen (fun s => (addCore fuel s b).1) := b
 
 /-! ### the invariant of a live node -/
 
-/-- the delivered block tree: `T h` is the block with hash `h` -/
+/-- `a` is a proper ancestor of `b` in the tree `T` -/
+inductive IsAnc (T : Nat → Option Block) : Block → Block → Prop where
+  | parent {a b : Block} : T b.hash = some b → T b.pre = some a → IsAnc T a b
+  | step {a p b : Block} : IsAnc T a p → T b.hash = some b → T b.pre = some p → IsAnc T a b
+
+/-- the delivered block tree: `T h` is the block with hash `h`. A valid block is higher than its parent,
+    its cumulative QN is not lower, and it does not repeat a transaction of an ancestor. -/
 structure ValidTree (T : Nat → Option Block) : Prop where
   parent : ∀ b q, T b.hash = some b → T b.pre = some q → q.height < b.height ∧ q.totalQN ≤ b.totalQN
+  txfresh : ∀ a b, IsAnc T a b → ∀ t ∈ b.txs, t ∉ a.txs
+
+/-- every block below the head of a linked chain of tree blocks is an ancestor of the head -/
+theorem anc_of_chain {T : Nat → Option Block} : ∀ (rest : List Block) (y : Block), Linked (y :: rest) →
+    (∀ z ∈ y :: rest, T z.hash = some z) → ∀ x ∈ rest, IsAnc T x y := by
+  intro rest
+  induction rest with
+  | nil => intro y _ _ x hx; cases hx
+  | cons z r ih =>
+    intro y hl hT x hx
+    have hTy := hT y (List.mem_cons_self ..)
+    have hTz := hT z (List.mem_cons_of_mem _ (List.mem_cons_self ..))
+    have hpar : T y.pre = some z := by rw [hl.1]; exact hTz
+    rcases List.mem_cons.mp hx with e | e
+    · subst e; exact IsAnc.parent hTy hpar
+    · exact IsAnc.step (ih z hl.2.2 (fun w hw => hT w (List.mem_cons_of_mem _ hw)) x e) hTy hpar
+
+/-- a tree block whose parent is the head of a chain of tree blocks repeats none of the chain's transactions -/
+theorem fresh_on_chain {T : Nat → Option Block} (vt : ValidTree T) {c : List Block} {y b : Block} (hl : Linked c)
+    (hT : ∀ z ∈ c, T z.hash = some z) (hy : c.head? = some y) (hp : b.pre = y.hash) (hb : T b.hash = some b) :
+    ∀ z ∈ c, ∀ t ∈ b.txs, t ∉ z.txs := by
+  cases c with
+  | nil => simp at hy
+  | cons y' rest =>
+    simp at hy; subst hy
+    have hTy := hT y' (List.mem_cons_self ..)
+    have hpar : T b.pre = some y' := by rw [hp]; exact hTy
+    intro z hz
+    rcases List.mem_cons.mp hz with e | e
+    · subst e; exact vt.txfresh _ b (IsAnc.parent hb hpar)
+    · exact vt.txfresh z b (IsAnc.step (anc_of_chain rest y' hl hT z e) hb hpar)
 
 def CacheOK (d : Disk) (m : Mem) : Prop := ∀ n z, m.top n = some z → d.heights n = some z
 def FutOK (T : Nat → Option Block) (m : Mem) : Prop := ∀ k f, m.future k = some f → f.pre = k ∧ T f.hash = some f
@@ -409,9 +463,9 @@ theorem RemStage.s4 {d0 d : Disk} {am : Option Block} {c : List Block} {x y : Bl
   v := fun _ => p.v (by omega)
   cur := by intro _; show some y = c.head?; rw [hy]
 
-theorem RemStage.delExec {d0 d : Disk} {am : Option Block} {c : List Block} {x : Block} (p : RemStage d0 am c x 4 d) (t : Nat) :
-    RemStage d0 am c x 4 (d.apply (.delExecuted t)) where
-  pend := p.pend.write (.delExecuted t)
+theorem RemStage.delExec {d0 d : Disk} {am : Option Block} {c : List Block} {x : Block} (p : RemStage d0 am c x 4 d) (t : Nat)
+    (ht : t ∈ x.txs) : RemStage d0 am c x 4 (d.apply (.delExecuted t)) where
+  pend := p.pend.write (.delExecuted t ht)
   addEq := p.addEq
   remEq := p.remEq
   keep := p.keep
@@ -421,9 +475,9 @@ theorem RemStage.delExec {d0 d : Disk} {am : Option Block} {c : List Block} {x :
   cur := p.cur
 
 /-- no add mark: erasing the remove mark completes the removal -/
-theorem RemStage.finish {d0 d : Disk} {c : List Block} {x : Block} (p : RemStage d0 none c x 4 d) :
-    ChainInv (d.apply .delRemoveMark) c := by
-  have := p.pend.finish_removed (p.b (by omega)) (p.h (by omega)) (p.v (by omega)) (p.cur (by omega))
+theorem RemStage.finish {d0 d : Disk} {c : List Block} {x : Block} (p : RemStage d0 none c x 4 d)
+    (hx : ∀ t ∈ x.txs, d.executed t = none) : ChainInv (d.apply .delRemoveMark) c := by
+  have := p.pend.finish_removed (p.b (by omega)) (p.h (by omega)) (p.v (by omega)) (p.cur (by omega)) hx
   have e : d.apply .delRemoveMark = { d with addMark := none, removeMark := none } := by
     cases d; simp only [Disk.apply]; congr; exact p.addEq
   rw [e]; exact this
@@ -434,9 +488,9 @@ theorem RemStage.mid {d0 d : Disk} {c : List Block} {x : Block} (p : RemStage d0
     Pending (d.apply .delRemoveMark) c x :=
   { p.pend with removeMark := Or.inl rfl, marked := Or.inl p.addEq }
 
-theorem RemStage.finish_add {d0 d : Disk} {c : List Block} {x : Block} (p : RemStage d0 (some x) c x 4 d) :
-    ChainInv ((d.apply .delRemoveMark).apply .delAddMark) c := by
-  have := p.pend.finish_removed (p.b (by omega)) (p.h (by omega)) (p.v (by omega)) (p.cur (by omega))
+theorem RemStage.finish_add {d0 d : Disk} {c : List Block} {x : Block} (p : RemStage d0 (some x) c x 4 d)
+    (hx : ∀ t ∈ x.txs, d.executed t = none) : ChainInv ((d.apply .delRemoveMark).apply .delAddMark) c := by
+  have := p.pend.finish_removed (p.b (by omega)) (p.h (by omega)) (p.v (by omega)) (p.cur (by omega)) hx
   have e : (d.apply .delRemoveMark).apply .delAddMark = { d with addMark := none, removeMark := none } := by
     cases d; simp only [Disk.apply]
   rw [e]; exact this
@@ -457,7 +511,7 @@ theorem remove_core {s : St} {x : Block} {c : List Block} {am : Option Block} {R
     (ha : s.crashed = false)
     (start : (ChainInv s.disk (x :: c) ∧ c ≠ [] ∧ am = none) ∨ (Pending s.disk c x ∧ s.disk.addMark = am))
     (hR0 : R s.disk) (hR : ∀ d, RecTo d c → R d) :
-    Out (fun d m => (∃ d4, RemStage s.disk am c x 4 d4 ∧ d = d4.apply .delRemoveMark) ∧
+    Out (fun d m => (∃ d4, RemStage s.disk am c x 4 d4 ∧ (∀ t ∈ x.txs, d4.executed t = none) ∧ d = d4.apply .delRemoveMark) ∧
           (∃ y, c.head? = some y ∧ m.latest = y) ∧ m.top = upd s.mem.top x.height none ∧
           m.future = s.mem.future ∧ (∀ t ∈ s.mem.pending, t ∈ m.pending) ∧ Unmarked x d m)
         R (remove s x).1 := by
@@ -514,7 +568,7 @@ theorem remove_core {s : St} {x : Block} {c : List Block} {am : Option Block} {R
         rw [this] at ht; cases ht
       · simp only [he]
         have hD := Out.delExecs x.txs hB2
-          (fun t d m p => ⟨p.1.delExec t, p.2⟩) (fun d m p => hR _ p.1.recTo)
+          (fun t ht d m p => ⟨p.1.delExec t ht, p.2⟩) (fun d m p => hR _ p.1.recTo)
         refine hD.setMem _ ?_
         intro p
         refine ⟨⟨p.1.1, p.1.2.1, p.1.2.2.1, p.1.2.2.2.1, ?_⟩, ?_⟩
@@ -525,7 +579,7 @@ theorem remove_core {s : St} {x : Block} {c : List Block} {am : Option Block} {R
     refine (hB3.write .delRemoveMark ?_ (fun d m p => hR _ p.1.1.recTo))
     intro d m p
     obtain ⟨⟨st, htop, hlat, hfut, hpend⟩, hun⟩ := p
-    refine ⟨⟨d, st, rfl⟩, ⟨y, hy, hlat⟩, htop, hfut, hpend, ?_⟩
+    refine ⟨⟨d, st, fun t ht => (hun t ht).1, rfl⟩, ⟨y, hy, hlat⟩, htop, hfut, hpend, ?_⟩
     intro t ht
     exact ⟨by simpa [Disk.apply] using (hun t ht).1, (hun t ht).2⟩
   · have fr := fun p => frozen_removeB x p (removeA s x) dead
@@ -542,9 +596,9 @@ theorem remove_spec {T : Nat → Option Block} {s : St} {x : Block} {c : List Bl
   refine (remove_core (am := none) (R := RemRec c x) ha (Or.inl ⟨inv.chain, hc, rfl⟩) (Or.inr inv.chain)
     (fun d r => Or.inl r)).mono ?_ (fun _ r => r)
   intro d m p
-  obtain ⟨⟨d4, st, hd⟩, ⟨y, hy, hlat⟩, htop, hfut, hpend, hun⟩ := p
+  obtain ⟨⟨d4, st, hx4, hd⟩, ⟨y, hy, hlat⟩, htop, hfut, hpend, hun⟩ := p
   subst hd
-  refine ⟨⟨st.finish, by rw [hy, hlat], ?_, ?_, ?_⟩, hun, hpend, hfut⟩
+  refine ⟨⟨st.finish hx4, by rw [hy, hlat], ?_, ?_, ?_⟩, hun, hpend, hfut⟩
   · intro k z hk
     rw [htop] at hk
     rcases upd_eq_some hk with ⟨_, hv⟩ | ⟨hne, hm⟩
@@ -571,9 +625,10 @@ structure AddStage (d0 : Disk) (c : List Block) (x : Block) (n : Nat) (d : Disk)
   cur : 5 ≤ n → d.current = some x
 
 theorem AddStage.start {d0 : Disk} {c : List Block} {y x : Block} (ci : ChainInv d0 c)
-    (hy : c.head? = some y) (hp : x.pre = y.hash) (hh : y.height < x.height) (hn : d0.blocks x.hash = none) :
+    (hy : c.head? = some y) (hp : x.pre = y.hash) (hh : y.height < x.height) (hn : d0.blocks x.hash = none)
+    (hfresh : ∀ z ∈ c, ∀ t ∈ x.txs, t ∉ z.txs) :
     AddStage d0 c x 0 (d0.apply (.putAddMark x)) where
-  pend := ci.begin_add hy hp hh hn
+  pend := ci.begin_add hy hp hh hn hfresh
   noRem := ci.noRemove
   keep := fun _ _ _ h => h
   b := by intro h; omega
@@ -629,9 +684,9 @@ theorem AddStage.s4 {d0 d : Disk} {c : List Block} {x : Block} (p : AddStage d0 
   v := by intro _; simp [Disk.apply]
   cur := by intro h; omega
 
-theorem AddStage.exec {d0 d : Disk} {c : List Block} {x : Block} (p : AddStage d0 c x 4 d) (txs : List Nat) (bh : Nat) :
-    AddStage d0 c x 4 (d.apply (.putExecuted txs bh)) where
-  pend := p.pend.write (.putExecuted txs bh)
+theorem AddStage.exec {d0 d : Disk} {c : List Block} {x : Block} (p : AddStage d0 c x 4 d) :
+    AddStage d0 c x 4 (d.apply (.putExecuted x.txs x.hash)) where
+  pend := p.pend.write .putExecuted
   noRem := p.noRem
   keep := p.keep
   b := p.b
@@ -651,9 +706,9 @@ theorem AddStage.s5 {d0 d : Disk} {c : List Block} {x : Block} (p : AddStage d0 
   v := fun _ => p.v (by omega)
   cur := by intro _; rfl
 
-theorem AddStage.finish {d0 d : Disk} {c : List Block} {x : Block} (p : AddStage d0 c x 5 d) :
-    ChainInv (d.apply .delAddMark) (x :: c) := by
-  have := p.pend.finish_added (p.b (by omega)) (p.h (by omega)) (p.v (by omega)) (p.s (by omega)) (p.cur (by omega))
+theorem AddStage.finish {d0 d : Disk} {c : List Block} {x : Block} (p : AddStage d0 c x 5 d)
+    (hx : ∀ t ∈ x.txs, d.executed t = some x.hash) : ChainInv (d.apply .delAddMark) (x :: c) := by
+  have := p.pend.finish_added (p.b (by omega)) (p.h (by omega)) (p.v (by omega)) (p.s (by omega)) (p.cur (by omega)) hx
   have e : d.apply .delAddMark = { d with addMark := none, removeMark := none } := by
     cases d; simp only [Disk.apply]; congr; exact p.noRem
   rw [e]; exact this
@@ -666,14 +721,15 @@ def Marked (b : Block) (d : Disk) (m : Mem) : Prop := ∀ t ∈ b.txs, d.execute
 
 theorem insertAB_spec {T : Nat → Option Block} {s : St} {b y : Block} {c : List Block} (ha : s.crashed = false)
     (inv : Inv T s.disk s.mem c) (hp : b.pre = y.hash) (hy : c.head? = some y) (hh : y.height < b.height)
-    (hn : s.disk.blocks b.hash = none) (hT : T b.hash = some b) :
-    Out (fun d m => Inv T d m (b :: c) ∧ Marked b d m ∧ m.future = s.mem.future ∧ m.verified = s.mem.verified)
+    (hn : s.disk.blocks b.hash = none) (hT : T b.hash = some b) (hfresh : ∀ z ∈ c, ∀ t ∈ b.txs, t ∉ z.txs) :
+    Out (fun d m => Inv T d m (b :: c) ∧ Marked b d m ∧ m.future = s.mem.future ∧ m.verified = s.mem.verified ∧
+          (∀ t ∈ s.mem.pending, t ∉ b.txs → t ∈ m.pending))
         (fun d => RecTo d c) (insertB (insertA s b) b) := by
   let d0 := s.disk
   let m0 := s.mem
   have h0 : Out (fun d m => d = d0 ∧ m = m0) (fun d => RecTo d c) s := Out.alive ha ⟨rfl, rfl⟩
   have h1 := h0.write (.putAddMark b) (Q := fun d m => AddStage d0 c b 0 d ∧ m = m0)
-    (fun d m p => ⟨by rw [p.1]; exact AddStage.start inv.chain hy hp hh hn, p.2⟩)
+    (fun d m p => ⟨by rw [p.1]; exact AddStage.start inv.chain hy hp hh hn hfresh, p.2⟩)
     (fun d m p => Or.inl (by rw [p.1]; exact inv.chain))
   have h2 := h1.write (.putBlock b) (Q := fun d m => AddStage d0 c b 1 d ∧ m = m0)
     (fun d m p => ⟨p.1.s1, p.2⟩) (fun d m p => p.1.recTo)
@@ -694,7 +750,7 @@ theorem insertAB_spec {T : Nat → Option Block} {s : St} {b y : Block} {c : Lis
       have : b.txs = [] := List.isEmpty_iff.mp he
       rw [this] at ht; cases ht
     · simp only [he]
-      exact h5.write _ (fun d m p => ⟨⟨p.1.exec _ _, p.2⟩, by
+      exact h5.write _ (fun d m p => ⟨⟨p.1.exec, p.2⟩, by
         intro t ht; simp [Disk.apply, markExec, ht]⟩) (fun d m p => p.1.recTo)
   have h7 := h6.setMem (poolMem (markTxs ((((((s.write (.putAddMark b)).write (.putBlock b)).write (.putHeight b.height b)).write
         (.commitState b.hash)).write (.putVerify b.height))) b).mem b)
@@ -709,12 +765,13 @@ theorem insertAB_spec {T : Nat → Option Block} {s : St} {b y : Block} {c : Lis
     (Q := fun d m => AddStage d0 c b 5 d ∧ (∀ t ∈ b.txs, d.executed t = some b.hash) ∧ m = { poolMem m0 b with latest := b })
     (fun p => ⟨p.1, p.2.1, by rw [p.2.2]⟩)
   have h10 := h9.write .delAddMark
-    (Q := fun d m => Inv T d m (b :: c) ∧ Marked b d m ∧ m.future = s.mem.future ∧ m.verified = s.mem.verified) ?_ (fun d m p => p.1.recTo)
+    (Q := fun d m => Inv T d m (b :: c) ∧ Marked b d m ∧ m.future = s.mem.future ∧ m.verified = s.mem.verified ∧
+      (∀ t ∈ s.mem.pending, t ∉ b.txs → t ∈ m.pending)) ?_ (fun d m p => p.1.recTo)
   · exact h10
   · intro d m p
     obtain ⟨st, hex, hm⟩ := p
     subst hm
-    refine ⟨⟨st.finish, rfl, ?_, ?_, ?_⟩, ?_, rfl, rfl⟩
+    refine ⟨⟨st.finish hex, rfl, ?_, ?_, ?_⟩, ?_, rfl, rfl, ?_⟩
     · intro k z hk
       have hk' : upd m0.top b.height (some b) k = some z := hk
       rcases upd_eq_some hk' with ⟨he, hv⟩ | ⟨hne, hm⟩
@@ -733,5 +790,40 @@ theorem insertAB_spec {T : Nat → Option Block} {s : St} {b y : Block} {c : Lis
       refine ⟨by simpa [Disk.apply] using hex t ht, ?_⟩
       show t ∉ (m0.pending.filter (fun t => !(b.txs.contains t)))
       simp [List.mem_filter, ht]
+    · intro t ht hnb
+      show t ∈ (m0.pending.filter (fun t => !(b.txs.contains t)))
+      simp [List.mem_filter, hnb]; exact ht
+
+
+/-! ### the verified cache in `insertBlock` -/
+
+theorem contains_lruAdd (l : List Nat) (k : Nat) : (lruAdd verifiedCap l k).contains k = true := by
+  simp [lruAdd, verifiedCap]
+
+/-- the state `insertBlock` continues with after a hit in the verified cache -/
+def touchVerified (s : St) (b : Block) : St := s.setMem { s.mem with verified := lruGet s.mem.verified b.hash }
+
+theorem insertBlock_hit (cont : St → Block → St) (s : St) (b : Block) (hv : s.mem.verified.contains b.hash = true) :
+    insertBlock cont s b =
+      match (insertB (insertA (touchVerified s b) b) b).mem.future b.hash with
+      | some f => (cont (insertB (insertA (touchVerified s b) b) b) f, .succ)
+      | none => (insertB (insertA (touchVerified s b) b) b, .succ) := by
+  unfold insertBlock
+  simp only
+  have hmem : (insertA s b).mem = s.mem := by simp [insertA]
+  have hc : saveStatesCache (insertA s b).mem.verified b = some (lruGet s.mem.verified b.hash) := by
+    rw [hmem]; unfold saveStatesCache; rw [if_pos hv]
+  rw [hc]
+  simp only
+  have e : (insertA s b).setMem { (insertA s b).mem with verified := lruGet s.mem.verified b.hash } =
+      insertA (touchVerified s b) b := by
+    unfold insertA touchVerified
+    rw [writes_mem, writes_setMem_comm]
+  rw [e]
+  rfl
+
+theorem touchVerified_inv {T : Nat → Option Block} {s : St} {b : Block} {c : List Block} (inv : Inv T s.disk s.mem c) :
+    Inv T (touchVerified s b).disk (touchVerified s b).mem c :=
+  ⟨inv.chain, inv.latest, inv.cache, inv.fut, inv.fromT⟩
 
 end Rangers.Proofs.ChainStore
